@@ -684,3 +684,25 @@ func dedupSorted(a []string) []string {
 	}
 	return out
 }
+
+// addTagFn writes the name cfn1 - a rule only some calls define - into the tags of the first plain scalar field of a
+// synthesised type (under every tag name of multiTags); false if the type has no such field.
+func addTagFn(ty *desc.T) bool {
+	for j := range ty.Fields {
+		f := &ty.Fields[j]
+		if desc.Exported(f.Name) && f.T.Elem == nil && f.T.K != "struct" && f.T.K != "time" {
+			if f.Tags == nil {
+				f.Tags = map[string]string{}
+			}
+			for _, tg := range multiTags {
+				if f.Tags[tg] == "" {
+					f.Tags[tg] = "cfn1"
+				} else if !strings.Contains(f.Tags[tg], "either") && !strings.Contains(f.Tags[tg], "botheq") {
+					f.Tags[tg] += ",cfn1"
+				}
+			}
+			return true
+		}
+	}
+	return false
+}
